@@ -797,8 +797,11 @@ class Glob(Generic[AnyStr]):
             for file, is_dir, _hidden, _is_link in files:
                 if file not in self.specials and (matcher is None or matcher(file)):
                     results.append((file, is_dir))
-        else:
+        elif self._lexists(curdir):
+            # `.`, `..` and roots are not looked up by scanning, but they have to be there
             results = [(curdir, True)]
+        else:
+            results = []
         return results
 
     def _is_unique(self, path: AnyStr) -> bool:
